@@ -80,7 +80,7 @@ def run_to_coq(I, r):
         cfg = EMPTY_CFG
         parse = coq_list(["(%s, %s)" % (I.s(x["s"]), ("Some %s" % coq_Z(x["ns"])) if x["ok"] else "None") for x in g["parsed"]])
         dbos = coq_list([dbo_to_coq(I, d) for d in g["dbos"]])
-        if g["kind"] == "env":
+        if g["kind"] == "env":  # "all" and "ctrl" (the real ctrl.Rotate over TCP) are both RotateAll over the objects
             env = coq_list(["(%s, %s)" % (I.s(kv["k"]), I.s(kv["v"])) for kv in g["env"]])
             kind = "(KEnv %s %s %s %s)" % (env, dbos, b(g["env_err"]), coq_list([dbo_to_coq(I, d) for d in g["env_out"]]))
         else:
@@ -408,6 +408,10 @@ def run_rotate(ck):
     cases += [json.loads(l) for l in open(outp)]
     byid = {c["id"]: c for c in cases}
 
+    srv_errs = [(c["id"], r["glue"]["srv_errs"]) for c in cases for r in c["runs"] if r.get("glue") and r["glue"].get("srv_errs")]
+    nctrl = sum(1 for c in cases for r in c["runs"] if r.get("glue") and r["glue"]["kind"] == "ctrl")
+    ck.obligation("the fake native-protocol server understood every packet of the real client (%d ctrl.Rotate runs over TCP)" % nctrl,
+                  not srv_errs, str(srv_errs[:2])[:600])
     panics = [c for c in cases if any(r.get("panic") for r in c["runs"])]
     for c in panics[:1]:
         ck.violation({"property": PID, "kind": "Rotate panicked", "case": strip_obs(c),
@@ -495,6 +499,7 @@ def run_rotate(ck):
             if not g:
                 continue
             glue["runs_env" if g["kind"] == "env" else "runs_all"] += 1
+            glue["runs_through_real_ctrl_Rotate_over_tcp"] = glue.get("runs_through_real_ctrl_Rotate_over_tcp", 0) + (1 if g["kind"] == "ctrl" else 0)
             glue["env_refused"] += 1 if g.get("env_err") else 0
             glue["runs_with_several_databases"] += 1 if len(g["dbos"]) > 1 else 0
             for x in g["parsed"]:
@@ -534,6 +539,7 @@ def run(ck):
         "C19: a fault is an error returned by one call, with or without the statement having taken effect; a crash is a fault after which nothing else runs; concurrent instances crash by never issuing another statement",
         "C19: time.ParseDuration is an oracle of the model (any function); the harness reports what the real one returned for each timeout text",
         "C19: rotateDB, RotateAll, boolEnv and portCHEnv are compiled into the harness as verbatim copies cut out of the repository under test (top-level func ... closing brace at column 0), with maintenance.ConnectV2 replaced by a function handing out the fake connection",
+        "C19: the fake native-protocol server (harness/cmd/rotate/tcp.go) answers the hello / query / data / ping packets of clickhouse-go v2 and recognises the client's bound statement texts by regular expressions; all configured databases share one fake database state",
         "C19: disk names containing '%' or a quote (MoveTo is spliced into a Sprintf format and into SQL) are outside the generator",
     ]
     ck.coq_props()
